@@ -231,7 +231,7 @@ func c11Run(sc c11Scenario, keys []eckg.LocalPartySaveData, mods *c11Moduli) (re
 					res.SameCoins = true
 				}
 			}
-			res.Established = histBroken == "" && len(accepted) > 0 && res.Rel == sc.Hist
+			res.Established = histBroken == "" && len(accepted) > 0 && res.Rel == sc.Hist && (sc.Size != "same_commitments" || res.SameCoins)
 			if histBroken != "" {
 				res.Notes = append(res.Notes, "history not established: "+histBroken)
 			} else if !res.Established {
@@ -350,6 +350,18 @@ func c11Run(sc c11Scenario, keys []eckg.LocalPartySaveData, mods *c11Moduli) (re
 			g.fromFac(pg)
 		}
 		accept(g, "the vendored balanced modulus with the same session and ring-Pedersen parameters")
+	}
+	// size "same_commitments" (histories): coins beyond their range that reproduce the commitments of a genuine run of the
+	// prover's algorithm. shiftH2(e, M): the exponent of h2 that compensates M more in the exponent of h1 (h1 = h2^Beta).
+	pqB := new(big.Int).Mul(B.P, B.Q)
+	shiftH2 := func(e, M *big.Int) *big.Int {
+		v := new(big.Int).Sub(e, new(big.Int).Mul(M, B.Beta))
+		return v.Mod(v, pqB)
+	}
+	sameCommit := sc.Hist != "" && sc.Size == "same_commitments"
+	if sameCommit && (B.Beta == nil || new(big.Int).Exp(B.H2i, B.Beta, B.NTildei).Cmp(B.H1i) != 0) {
+		res.Inconcl = "the vendored parameter set does not carry the logarithm of h1 to the base h2"
+		return
 	}
 	if sc.Hist == "collide" {
 		if sc.Sys == "pai" {
@@ -712,6 +724,24 @@ func c11Run(sc c11Scenario, keys []eckg.LocalPartySaveData, mods *c11Moduli) (re
 		k := pcCoins{"alpha": al, "beta": pcRandBelow(rng, bound), "mu": pcRandBelow(rng, new(big.Int).Mul(q, NC)), "nu": pcRandBelow(rng, new(big.Int).Mul(q, NC)),
 			"sigma": pcRandBelow(rng, new(big.Int).Mul(new(big.Int).Mul(q, NC), sk.N)), "r": pcRandBelow(rng, new(big.Int).Mul(new(big.Int).Mul(q3, NC), sk.N)),
 			"x": pcRandBelow(rng, new(big.Int).Mul(q3, NC)), "y": pcRandBelow(rng, new(big.Int).Mul(q3, NC))}
+		if sameCommit {
+			// genuine: in-range coins; presented: alpha + bound, with x and r compensating in the exponents of t
+			k["alpha"] = pcRandBelow(rng, bound)
+			g := pcBuildFac(cv, sess, sk.N, NC, B.H1i, B.H2i, sk.P, sk.Q, k)
+			accept(g, "the same modulus: the prover's algorithm with every coin in its range")
+			k2 := pcCoins{}
+			for n, v := range k {
+				k2[n] = v
+			}
+			k2["alpha"] = new(big.Int).Add(k["alpha"], bound)
+			k2["x"] = shiftH2(k["x"], bound)
+			// Q^bound = t^(bound*(q*Beta + nu)) with Q = s^q t^nu
+			qb := new(big.Int).Add(new(big.Int).Mul(sk.Q, B.Beta), k["nu"])
+			rr := new(big.Int).Sub(k["r"], new(big.Int).Mul(bound, qb))
+			k2["r"] = rr.Mod(rr, pqB)
+			present(pcBuildFac(cv, sess, sk.N, NC, B.H1i, B.H2i, sk.P, sk.Q, k2))
+			return
+		}
 		acceptFac()
 		present(pcBuildFac(cv, sess, sk.N, NC, B.H1i, B.H2i, sk.P, sk.Q, k))
 	case "alice/plaintext_beyond_q3":
@@ -757,6 +787,14 @@ func c11Run(sc c11Scenario, keys []eckg.LocalPartySaveData, mods *c11Moduli) (re
 		r := pcRandUnit(rng, pk.N)
 		k := pcCoins{"alpha": bigSize(q3, nil), "beta": pcRandUnit(rng, pk.N), "gamma": pcRandBelow(rng, new(big.Int).Mul(q3, NT)), "rho": pcRandBelow(rng, new(big.Int).Mul(q, NT))}
 		c := pcEnc(pk.N, pc0, r)
+		if sameCommit {
+			// genuine: alpha below q^3; presented: alpha + N (Gamma has order N), gamma compensating in the exponent of h2
+			k["alpha"] = pcRandBelow(rng, q3)
+			accept(pcBuildAlice(cv, pk.N, NT, B.H1i, B.H2i, c, pc0, r, k), "the same ciphertext (of 0): the prover's algorithm with every coin in its range")
+			k2 := pcCoins{"alpha": new(big.Int).Add(k["alpha"], pk.N), "beta": k["beta"], "gamma": shiftH2(k["gamma"], pk.N), "rho": k["rho"]}
+			present(pcBuildAlice(cv, pk.N, NT, B.H1i, B.H2i, c, pc0, r, k2))
+			return
+		}
 		if sc.Hist != "" {
 			var pg *mta.RangeProofAlice
 			var g *pcTr
@@ -901,6 +939,30 @@ func c11Run(sc c11Scenario, keys []eckg.LocalPartySaveData, mods *c11Moduli) (re
 			k["alpha"] = bigSize(q3, nil)
 		} else {
 			k["gamma"] = bigSize(q7, nil)
+		}
+		if sameCommit {
+			// genuine: every coin in its range; presented: alpha + N (c1^N is absorbed by beta, h1^N by rho') resp. gamma + N
+			k["alpha"], k["gamma"] = pcRandBelow(rng, q3), pcRandBelow(rng, q7)
+			accept(pcBuildBob(cv, sess, pk.N, NT, B.H1i, B.H2i, c1, c2, pc0, pc0, r, k, nil), "the same (c1, c2 = Enc(0)): the prover's algorithm with every coin in its range")
+			k2 := pcCoins{}
+			for n, v := range k {
+				k2[n] = v
+			}
+			if sc.Family == "s1_beyond" {
+				ci := new(big.Int).ModInverse(new(big.Int).Mod(c1, pk.N), pk.N)
+				if ci == nil {
+					res.Inconcl = "c1 is no unit"
+					return
+				}
+				k2["alpha"] = new(big.Int).Add(k["alpha"], pk.N)
+				k2["beta"] = pcMul(pk.N, k["beta"], ci)
+				k2["rhop"] = shiftH2(k["rhop"], pk.N)
+			} else {
+				k2["gamma"] = new(big.Int).Add(k["gamma"], pk.N)
+				k2["tau"] = shiftH2(k["tau"], pk.N)
+			}
+			present(pcBuildBob(cv, sess, pk.N, NT, B.H1i, B.H2i, c1, c2, pc0, pc0, r, k2, nil))
+			return
 		}
 		if sc.Hist != "" {
 			var pg *mta.ProofBob
@@ -1128,6 +1190,9 @@ func c11PlanHist(ctx *core.Ctx, rows []c11HRow, base int) []c11Scenario {
 		sizes := r.Sizes
 		if !ctx.Thorough() {
 			sizes = []string{r.Sizes[(i+int(ctx.Seed))%len(r.Sizes)]}
+			if last := r.Sizes[len(r.Sizes)-1]; last == "same_commitments" && sizes[0] != last {
+				sizes = append(sizes, last)
+			}
 		}
 		for k, sz := range sizes {
 			p := pairs[((i*5+k)*7+int(ctx.Seed)*3+1)%len(pairs)]
